@@ -657,6 +657,7 @@ fn prog_name(p: &Prog) -> String {
 fn main() {
     let a = Args::parse();
     util::silence_panics();
+    util::apply_parity(&a);
     let hooked = install_hook();
     let seed = a.u64("seed", 1);
     let shard = a.usize("shard", 0);
